@@ -34,7 +34,7 @@ CONSTANTS
     Depth,      \* length of the call histories enumerated by Next
     EmitOn,     \* TRUE: print every completed history with the predicted observations
     Variant,    \* "contract" | "shiftcmp" | "ssreset"
-    MenuName    \* "c04" (the full menu) | "c04small" (15 operations, for depth 4) | "variant"
+    MenuName    \* "c04" (the full menu) | "c04small" (16 operations, for depth 4) | "c04warm" (full menu, continuing WarmH) | "variant"
 
 VARIABLES st, h
 
@@ -188,7 +188,7 @@ Menu(s) ==
        THEN << OpSim(t, 1), OpSim(TAdd(t, 2), 1), OpSim(TAdd(t, 6), 2),
                OpTc(Rel(t, <<m2, 2, 4>>)), OpTc(Rel(t, <<0, 1, 3>>)),
                OpPtcAbs(Proto2, Rel(t, <<1, 2, 5, 9>>)),
-               OpTc(<<TEps(t), TAdd(t, 2)>>), OpPtcRel(Proto2, <<1, 2001, 6000>>),
+               OpTc(<<TEps(t), TAdd(t, 2)>>), OpPtcRel(Proto2, <<1, 2001, 6000>>), OpTc(Rel(t, <<1, 3>>)),
                OpUpd("k", IF s.p.kk = 128 THEN 64 ELSE 128), OpUpd("k", IF s.p.kk = 1 THEN 64 ELSE 1),
                OpUpd("kin", IF s.p.kin = 0 THEN 128 ELSE 0),
                OpOv(10), OpSs(T(s.nss + 1, 0)), OpClear, OpRead >>
@@ -206,9 +206,20 @@ Menu(s) ==
                OpUpd("kin", IF s.p.kin = 0 THEN 128 ELSE 0), OpScale("kin", 0),
                OpProto(ProtoZ, 1), OpPtcAbs(ProtoZ, Rel(t, <<1, 3, 5>>)),
                OpProto(ProtoP, 1), OpPtcRel(ProtoP, <<1000, 3000, 5000>>),
+               OpTc(Rel(t, <<1, 3>>)),       \* odd offsets: whole numbers exactly when the time reached is not one
                OpOv(10), OpSs(T(s.nss + 1, 0)), OpClear, OpRead >>
 
-Init == st = Fresh /\ h = <<>>
+\* a simulator that has been overridden twice with simulated time before each override, at a time reached that is
+\* an odd number of ticks (MenuName = "c04warm": histories continue from here)
+WarmOps(s, j) == CASE j = 1 -> OpSim(TAdd(s.now, 3), 1) [] j = 2 -> OpOv(10) [] j = 3 -> OpSim(TAdd(s.now, 2), 1)
+                   [] j = 4 -> OpOv(7)
+WarmH == FoldLeft(LAMBDA hh, j : LET s == IF hh = <<>> THEN Fresh ELSE hh[Len(hh)].st
+                                     op == WarmOps(s, j)
+                                     r == Eff(op, s)
+                                 IN Append(hh, [op |-> op, raised |-> r.raised, st |-> r.st]),
+                  <<>>, <<1, 2, 3, 4>>)
+
+Init == IF MenuName = "c04warm" THEN h = WarmH /\ st = WarmH[4].st ELSE st = Fresh /\ h = <<>>
 
 Next == /\ Len(h) < Depth
         /\ \E i \in 1..Len(Menu(st)) :
